@@ -520,9 +520,62 @@ func symStrEq(a symStr, y value) value {
 }
 
 // bytesEqTerm returns the (possibly symbolic) equality of two equal-length byte vectors.
+// Runs of adjacent bytes that are consecutive extracts of the same wider terms (the
+// big-endian bytes of an integer) are compared as one wide equality.
 func bytesEqTerm(a, b []value) value {
 	c := G.ctx
 	acc := c.True()
+	type side struct {
+		base   *smt.Term // nil = constant
+		hi, lo int
+		cval   uint64 // accumulated constant (for base == nil)
+		n      int    // bytes accumulated
+	}
+	var ra, rb side
+	have := false
+	flush := func() {
+		if !have {
+			return
+		}
+		mk := func(s side) *smt.Term {
+			if s.base == nil {
+				return c.Const(smt.BV(8*s.n), s.cval)
+			}
+			return c.Extract(s.base, s.hi, s.lo)
+		}
+		acc = c.And(acc, c.Eq(mk(ra), mk(rb)))
+		have = false
+	}
+	// describe a byte as (base, hi, lo) extract or constant
+	desc := func(v value) (base *smt.Term, hi, lo int, cv uint64, ok bool) {
+		switch x := v.(type) {
+		case uint8:
+			return nil, 0, 0, uint64(x), true
+		case sym:
+			t := x.t
+			if t.Op == smt.OExtract && t.Hi-t.Lo == 7 {
+				return t.Args[0], t.Hi, t.Lo, 0, true
+			}
+			return t, 7, 0, 0, true
+		}
+		return nil, 0, 0, 0, false
+	}
+	extend := func(s *side, base *smt.Term, hi, lo int, cv uint64) bool {
+		if s.n >= 8 {
+			return false
+		}
+		if s.base == nil && base == nil {
+			s.cval = s.cval<<8 | cv
+			s.n++
+			return true
+		}
+		if s.base != nil && base == s.base && hi == s.lo-1 {
+			s.lo = lo
+			s.n++
+			return true
+		}
+		return false
+	}
 	for i := range a {
 		if !isSym(a[i]) && !isSym(b[i]) {
 			if a[i].(uint8) != b[i].(uint8) {
@@ -530,7 +583,25 @@ func bytesEqTerm(a, b []value) value {
 			}
 			continue
 		}
-		acc = c.And(acc, c.Eq(termOf(a[i]), termOf(b[i])))
+		ba, ha, la, ca, oka := desc(a[i])
+		bb, hb, lb, cb, okb := desc(b[i])
+		if !oka || !okb {
+			flush()
+			acc = c.And(acc, c.Eq(termOf(a[i]), termOf(b[i])))
+			continue
+		}
+		if have {
+			sa, sb := ra, rb
+			if extend(&sa, ba, ha, la, ca) && extend(&sb, bb, hb, lb, cb) {
+				ra, rb = sa, sb
+				continue
+			}
+			flush()
+		}
+		ra = side{base: ba, hi: ha, lo: la, cval: ca, n: 1}
+		rb = side{base: bb, hi: hb, lo: lb, cval: cb, n: 1}
+		have = true
 	}
+	flush()
 	return symBool(acc)
 }
